@@ -50,6 +50,20 @@ def run_one(mutant, tier, baseline, budget):
         out["violations"] = [ln.split("replay=")[1].split("/")[-1] for ln in p.stdout.splitlines() if ln.startswith("VIOLATION")]
         out["harness"] = [ln[:200] for ln in p.stdout.splitlines() if ln.startswith("HARNESS-ERROR")][:2]
         out["status"] = "caught" if p.returncode == 1 else ("MISSED" if p.returncode == 0 else "HARNESS-ERROR")
+        # the minimised replay must fail the same way in a fresh process on the
+        # mutated tree and must not reproduce on the unchanged tree
+        reps = [ln.split("replay=")[1].strip() for ln in p.stdout.splitlines() if ln.startswith("VIOLATION")]
+        if reps:
+            r1 = subprocess.run([sys.executable, os.path.join(VERIF, "run_check.py"), "--replay", reps[0]],
+                                capture_output=True, text=True, env=env, timeout=900)
+            env2 = dict(env)
+            env2.pop("VERIF_REPO")
+            r2 = subprocess.run([sys.executable, os.path.join(VERIF, "run_check.py"), "--replay", reps[0]],
+                                capture_output=True, text=True, env=env2, timeout=900)
+            out["replay_on_mutant_exit"] = r1.returncode
+            out["replay_on_unchanged_exit"] = r2.returncode
+            if r1.returncode != 1 or r2.returncode != 0:
+                out["status"] = "REPLAY-MISMATCH"
         if baseline:
             b = subprocess.run([sys.executable, os.path.join(VERIF, "tools", "baseline.py"), root],
                                capture_output=True, text=True, timeout=3600)
